@@ -184,6 +184,36 @@ def d2(ctx, prog):
     return s
 
 
+FRAME_BATTERY = [[2, 3, 4], [4, 6, 5, 7, 8], [2, 3, 3, 5], [5, 3, 1], [4, 2, 0], [0, 2, 4], [-3, -2, -1], [-1, -2, -3], [7], [1, 1], [9, 0], [0, 9],
+                 range(2, 6), range(6, 0, -2), range(4, -1, -2), range(0, 10, 3), slice(2, 7), slice(None, None, 2), slice(7, 2, -1), ..., 3]
+
+
+def frame_counterexample(prog, f, value, param):
+    """`value` (an expression over the parameter `param`) is evaluated exactly (sa.symtensor, numeric mode, conditions must be
+    decidable) for a battery of frames; a frame for which indexing the sample axis with the result selects other columns than the
+    frame itself is a concrete failing input -> (frame, columns selected, columns wanted).  None: no counterexample (no verdict)."""
+    from .. import symtensor, ratfun
+    np = symtensor.np
+    if np is None:
+        return None
+    probe = np.arange(30).reshape(3, 10)
+    for fr in FRAME_BATTERY:
+        te = symtensor.TensorEval(prog, f.cls, {})
+        te.numeric = True
+        te.strict_if = True
+        try:
+            got = te.ev(f, value, {param: fr})
+            want = probe[:, fr]
+            sel = probe[:, got]
+        except (ratfun.Unknown, symtensor.Raised):
+            return None
+        except (IndexError, TypeError, ValueError):
+            continue
+        if np.shape(sel) != np.shape(want) or not np.array_equal(sel, want):
+            return fr, np.asarray(sel)[0].tolist() if np.ndim(sel) else int(sel[()]) , np.asarray(want)[0].tolist() if np.ndim(want) else want
+    return None
+
+
 def d3(ctx, prog, s):
     stmts = [st for st in s.node.body if not (isinstance(st, ast.Expr) and isinstance(st.value, ast.Constant))]
     key = f'{s.key}::frame then preprocesses'
@@ -212,7 +242,13 @@ def d3(ctx, prog, s):
     fp = [p for p in sf.params if p != 'self'][0]
     reb = [n for n in ast.walk(sf.node) if isinstance(n, ast.Assign) and isinstance(n.targets[0], ast.Name) and n.targets[0].id == fp]
     kinds_ = [astutil.passthrough_kind(n.value, fp) for n in st + reb]
-    if len(st) != 1 or 'unknown' in kinds_:
+    cex = None
+    if len(st) == 1 and 'unknown' in kinds_:
+        cex = frame_counterexample(prog, sf, (st + reb)[kinds_.index('unknown')].value, fp)
+    if cex is not None:
+        ctx.fail('C02-D3', f'{sf.key}::stores frame', f'the frame {cex[0]!r} given to the Container is stored as `{norm((st + reb)[kinds_.index("unknown")].value)[:60]}`, which selects the sample columns {cex[1]} '
+                 f'instead of {cex[2]}: index lists must be applied as given (order and repetitions included)', sf.where())
+    elif len(st) != 1 or 'unknown' in kinds_:
         ctx.undecided('C02-D3', f'{sf.key}::stores frame', f'how the frame is stored (`{norm((st + reb)[kinds_.index("unknown")].value)[:60] if "unknown" in kinds_ else "?"}`) is not understood', sf.where())
     else:
         bad_ = [n for n, k_ in zip(st + reb, kinds_) if k_ == 'derived']
@@ -254,7 +290,11 @@ def d3(ctx, prog, s):
             reb = [n for n in ast.walk(w0.node) if isinstance(n, ast.Assign) and isinstance(n.targets[0], ast.Name) and n.targets[0].id == a]
             kinds_ = [astutil.passthrough_kind(n.value, a) for n in stt + reb]
             k_ = f'{w0.key}::self.{a}'
-            if len(stt) != 1 or 'unknown' in kinds_:
+            cex = frame_counterexample(prog, w0, (stt + reb)[kinds_.index('unknown')].value, a) if a == 'frame' and len(stt) == 1 and 'unknown' in kinds_ else None
+            if cex is not None:
+                ctx.fail('C02-D3', k_, f'the frame {cex[0]!r} is stored by the batch wrapper as `{norm((stt + reb)[kinds_.index("unknown")].value)[:60]}`, which selects the sample columns {cex[1]} instead of {cex[2]}: '
+                         'index lists must be applied as given (order and repetitions included)', w0.where())
+            elif len(stt) != 1 or 'unknown' in kinds_:
                 ctx.undecided('C02-D3', k_, f'how the batch wrapper stores `{a}` (`{norm((stt + reb)[kinds_.index("unknown")].value)[:60] if "unknown" in kinds_ else "?"}`) is not understood: '
                               'index lists must be applied as given (order and repetitions included)', w0.where())
             else:
